@@ -1407,3 +1407,59 @@ def every_pair_is_indexed(ctx):
                      "; ".join(sorted(set(bad))[:2]) if bad else "stores conditional on container membership only", ctx.prog.loc(lp))
     if n < 2:
         raise AnalysisError("C06.R15", f"expected the tag and field indexing loops in Index, found {n}")
+
+
+@rule("C06.R16", ["C06", "C13", "C01", "C07", "C11"], min_instances=1, design="3.6")
+def fresh_index_not_valid_by_default(ctx):
+    """An Index constructed outside the Index class (and attached to the database) states its validity explicitly,
+    and not as the constant True: the constructor's default is `valid`, so `self._index = Index()` followed by a
+    rebuild that raises (first read of storage fails) leaves an empty index that claims to mirror storage."""
+    init = ctx.prog.lookup_method("Index", "__init__")
+    if init is None:
+        raise AnalysisError("C06.R16", "Index.__init__ not found")
+    params = [p for p in init.params() if p != "self"]
+    flag = next(iter(fields_of(ctx).flag))
+    # which constructor parameter feeds the validity flag
+    vparam = None
+    for n in walk_local(init.node):
+        if isinstance(n, ast.Assign) and any(is_self_attr(t, flag) for t in n.targets) and isinstance(n.value, ast.Name) \
+                and n.value.id in params:
+            vparam = n.value.id
+    if vparam is None:
+        raise AnalysisError("C06.R16", "validity flag is not initialised from a constructor parameter")
+    pos = params.index(vparam)
+    a = init.node.args
+    all_args = a.posonlyargs + a.args
+    defaults = dict(zip([x.arg for x in all_args[len(all_args) - len(a.defaults):]], a.defaults))
+    defaults.update({k.arg: d for k, d in zip(a.kwonlyargs, a.kw_defaults) if d is not None})
+    dflt = defaults.get(vparam)
+    default_true = isinstance(dflt, ast.Constant) and dflt.value is True
+    for f in ctx.prog.all_funcs():
+        if f.cls == "Index" or (f.parent is not None and f.parent.cls == "Index"):
+            continue
+        for n in walk_local(f.node):
+            if not isinstance(n, ast.Call):
+                continue
+            if not any(isinstance(tg, Func) and tg is init for tg in ctx.res.resolve_call(n, f, quiet=True)):
+                continue
+            arg = None
+            for k in n.keywords:
+                if k.arg == vparam:
+                    arg = k.value
+            if arg is None and len(n.args) > pos and not any(isinstance(x, ast.Starred) for x in n.args):
+                arg = n.args[pos]
+            opaque = any(k.arg is None for k in n.keywords) or any(isinstance(x, ast.Starred) for x in n.args)
+            if arg is None and opaque:
+                continue
+            if arg is None:
+                ok = not default_true
+                msg = ("constructor default is not `valid`" if ok else
+                       f"`{norm(n, 50)}` relies on the default `{vparam}=True`: a fresh, empty index claims to mirror storage "
+                       f"before anything was read; if the following rebuild raises, reads answer from the empty index")
+            else:
+                const_true = isinstance(arg, ast.Constant) and arg.value is True
+                ok = not const_true
+                msg = (f"validity given explicitly as `{norm(arg, 50)}`" if ok else
+                       f"`{norm(n, 50)}` declares a fresh, empty index valid unconditionally")
+            yield Ob("C06.R16", ["C06", "C13", "C01", "C07", "C11"], f"{f.qual} | fresh index states its validity{occ(f, n)}",
+                     ok, msg, ctx.prog.loc(n))
